@@ -477,6 +477,38 @@ def find_counterexample(harness, tag, seed):
     return None, "small-scope search found no failing input"
 
 
+def native_sweep(budget, only=None):
+    """(maintenance / self-test) run every harness body natively over the small scope against REPO and
+    report the obligations that fail there. Never evidence; used to find out quickly which harnesses a
+    changed tree affects before the verifier is run on them."""
+    binary = build_replay()
+    if binary is None:
+        print("replay binary did not build against this tree")
+        return 2
+    cat = catalogue()
+    names = [n for n in cat if only is None or re.search(only, n)]
+    hits = {}
+
+    def one(n):
+        try:
+            rc, rows, out = native(binary, "sweep", n, str(budget), "1", timeout=900)
+        except subprocess.TimeoutExpired:
+            return n, ["<native sweep timed out>"]
+        fails = []
+        for r in rows:
+            for f in r.get("failures", []):
+                fails.append(f["obligation"])
+        return n, fails
+
+    with cf.ThreadPoolExecutor(max_workers=WORKERS) as ex:
+        for n, fails in ex.map(one, names):
+            if fails:
+                hits[n] = fails
+                print(f"{n}: {fails}")
+    print("SWEEP-HITS " + json.dumps(sorted(hits)))
+    return 1 if hits else 0
+
+
 def do_replay(path):
     rec = json.load(open(path))
     print(json.dumps({k: rec[k] for k in ("property", "obligation", "harness") if k in rec}))
@@ -514,6 +546,8 @@ def harnesses_for(pid, tier, reg, cat):
             continue
         if tier == "quick" and tier_of(n) != "quick":
             continue
+        if os.environ.get("VERIF_ONLY") and not re.search(os.environ["VERIF_ONLY"], n):
+            continue  # maintenance: restrict a self-test run to the named harnesses (never set by the registered commands)
         sel.append(n)
     return sorted(sel)
 
@@ -755,6 +789,7 @@ def main():
     ap.add_argument("--register", action="store_true")
     ap.add_argument("--only")
     ap.add_argument("--selftest", action="store_true")
+    ap.add_argument("--sweep", type=int, help="(maintenance) native small-scope sweep of every harness with this budget")
     a = ap.parse_args()
     seed = int(os.environ.get("VERIF_SEED", "0") or 0)
     os.makedirs(WORK, exist_ok=True)
@@ -762,6 +797,8 @@ def main():
         sys.exit(do_replay(a.replay))
     if a.register:
         sys.exit(register(a.only))
+    if a.sweep:
+        sys.exit(native_sweep(a.sweep, a.only))
     if not a.prop:
         ap.print_help()
         sys.exit(2)
